@@ -60,6 +60,11 @@ class Term:
     def macro(self):
         return self.loc[3] if self.loc and self.loc[2] == 1 else None
 
+    @property
+    def outer_macro(self):
+        """the macro written at the source call site (outermost expansion), e.g. `debug_assert`"""
+        return self.loc[4] if self.loc and len(self.loc) > 4 and self.loc[2] == 1 else None
+
 
 class Block:
     __slots__ = ("stmts", "term", "cleanup")
